@@ -25,7 +25,11 @@ RULE = ("family `single`: a settled 3..5 node network of real Nodes, then 300..1
         "deep nesting, huge length prefixes, non-canonical integers, non-dict roots, missing/extra keys, wrong field "
         "types, from ordinary and reserved source addresses; each delivery classified by an independent strict "
         "bencode reader + schema. family `net`: a C12-shaped network run with the wire monitor on every datagram a "
-        "real node sends and a link corruption stage. One evaluation = one run; datagrams judged are counted in "
+        "real node sends and a link corruption stage. `store_pair` histories: a sender stores validly, then sends a "
+        "store of the right shape with a blob hash of the wrong type and another port. For every datagram that is "
+        "not a well-formed message the failures booked during that delivery (observed per call) must name the sender "
+        "only; if the handler rejected it, routing table and announcements must be unchanged. Compact addresses "
+        "round-trip at port and address boundaries. One evaluation = one run; datagrams judged are counted in "
         "probes. Non-trivial = >= 50 datagrams judged; distinct = distinct event-trace digest.")
 COMPONENTS = {
     'real': ['lbry.dht.serialization.bencoding', 'lbry.dht.serialization.datagram (all datagram classes, compact addresses)',
